@@ -215,6 +215,8 @@ func TestVerifAlias(t *testing.T){
 
 def run(chk):
     prog, base = setup(chk)
+    from .common import state_shape
+    state_shape(chk, prog)
     fns = sweep.api_functions(prog)
     ngo = 3 if chk.tier == "thorough" else 2
     chk.bounds = ["all %d exported operations (effects of every path), %d goroutines x every multiset of operations that use a precomputed table, one call each, object granularity" % (len(fns), ngo)]
